@@ -20,15 +20,17 @@ LEVEL_TEXT = ('static analysis: (D1) each filter body is interpreted, through it
               'runs of consecutive rows equal in level, chromosome (arm) and, when present, cn1 / cn2, in order; (D3) squash_region on a symbolic'
               ' 3-row group: first start, last end, probes = sum (or row count), weight = sum, log2 / depth / baf weight-averaged (plain mean '
               'when the weights sum to 0; a zero-weight member of a run does not switch the weighting off), cn / cn1 = weighted median of the '
-              'run, cn2 = cn - cn1, gene = distinct names joined; (D4) do_call applies ci and sem before calling copy numbers and the remaining '
-              'filters after, in list order; the CLI --filter choices are exactly the implemented @require_column functions; (D5) ci / sem / '
-              'ampdel / cn interpreted end to end through the real squash_by_groups on literal 6-row tables whose index labels are a permutation:'
-              ' each merges exactly the runs of its own level (a level vector re-wrapped on a fresh 0..n-1 index is aligned by label onto the '
-              'wrong rows). D2 includes neighbours that both lack allelic copy numbers (cn1 = cn2 missing): they share their level; a missing '
-              'level next to a known one is left unspecified. (CLI) the `call` command line(s), through a model of argparse built from the '
-              'declarations in commands.py and the real _cmd_ body interpreted with readers, library step and writers stubbed: every --filter, in'
-              ' the order given, reaches do_call. Decides the run-length grouping on that scope only (longer tables follow the same cumulative-'
-              'key construction; no induction is attempted).')
+              'run, cn2 = cn - cn1, gene = distinct names joined; (D6) do_call interpreted for every ordered list of distinct filters holding at '
+              'most one of ci / sem x calling method: ci / sem run before the copy numbers exist, the others afterwards in the order given, each '
+              "once, the caller's list unchanged; (D4) the CLI --filter choices are exactly the implemented @require_column functions; (D5) ci / "
+              'sem / ampdel / cn interpreted end to end through the real squash_by_groups on literal 6-row tables whose index labels are a '
+              'permutation: each merges exactly the runs of its own level (a level vector re-wrapped on a fresh 0..n-1 index is aligned by label '
+              'onto the wrong rows); on one-row tables nothing merges and ampdel still keeps only cn = 0 or cn >= 5. D2 includes neighbours that '
+              'both lack allelic copy numbers (cn1 = cn2 missing): they share their level; a missing level next to a known one is left '
+              'unspecified. (CLI) the `call` command line(s), through a model of argparse built from the declarations in commands.py and the real'
+              ' _cmd_ body interpreted with readers, library step and writers stubbed: every --filter, in the order given, reaches do_call. '
+              'Decides the run-length grouping on that scope only (longer tables follow the same cumulative-key construction; no induction is '
+              'attempted).')
 TECHNIQUE = ('abstract interpretation of the filter bodies over order positions; bounded exhaustive interpretation of the grouping on literal '
              'tables; closed forms on symbolic groups; dominance; index-label alignment hazard on literal tables')
 
